@@ -156,9 +156,160 @@ func (in *inliner) Body(call *ast.CallExpr) *ast.BlockStmt {
 		if out != nil && len(prefix) > 0 {
 			out = &ast.BlockStmt{Lbrace: out.Lbrace, List: append(prefix, out.List...), Rbrace: out.Rbrace}
 		}
+		if out != nil {
+			out = in.foldDescriptors(out)
+		}
 	}
 	in.body[call] = out
 	return out
+}
+
+// foldDescriptors: `ln := this.lane(second)` at the top of a followed body, where the helper returns
+// a record literal (the one its constant arguments select), is taken out and every ln.f reads as the
+// expression the record holds for f. A helper that bundles pointers to the fields of one of two
+// queues is then judged like the code that names those fields directly.
+func (in *inliner) foldDescriptors(body *ast.BlockStmt) *ast.BlockStmt {
+	info := in.fi.Pkg.TypesInfo
+	for i, st := range body.List {
+		as, ok := st.(*ast.AssignStmt)
+		if !ok || as.Tok != token.DEFINE || len(as.Lhs) != 1 || len(as.Rhs) != 1 {
+			continue
+		}
+		id, ok := as.Lhs[0].(*ast.Ident)
+		if !ok {
+			continue
+		}
+		call, ok := ast.Unparen(as.Rhs[0]).(*ast.CallExpr)
+		if !ok {
+			continue
+		}
+		obj := info.ObjectOf(id)
+		fields := in.descriptorOf(call)
+		if fields == nil || obj == nil {
+			continue
+		}
+		// the local must only ever be selected from
+		okUse := true
+		rest := &ast.BlockStmt{Lbrace: body.Lbrace, List: append(append([]ast.Stmt{}, body.List[:i]...), body.List[i+1:]...), Rbrace: body.Rbrace}
+		var stack []ast.Node
+		ast.Inspect(rest, func(n ast.Node) bool {
+			if n == nil {
+				stack = stack[:len(stack)-1]
+				return true
+			}
+			stack = append(stack, n)
+			if x, ok := n.(*ast.Ident); ok && info.ObjectOf(x) == obj {
+				if len(stack) < 2 {
+					okUse = false
+				} else if sel, ok := stack[len(stack)-2].(*ast.SelectorExpr); !ok || sel.X != ast.Expr(x) {
+					okUse = false
+				} else if _, has := fields[sel.Sel.Name]; !has {
+					okUse = false
+				}
+			}
+			return true
+		})
+		if !okUse {
+			continue
+		}
+		if nb, ok := paths.SubstFields(info, rest, map[types.Object]map[string]ast.Expr{obj: fields}).(*ast.BlockStmt); ok {
+			return in.foldDescriptors(nb)
+		}
+	}
+	return body
+}
+
+// descriptorOf: the fields of the record literal a followed helper returns for this call: its body is a
+// chain of `if <condition that is a constant once the arguments are in place> { return T{...} }`
+// ending in `return T{...}`.
+func (in *inliner) descriptorOf(call *ast.CallExpr) map[string]ast.Expr {
+	cfi, repl := in.callee(call)
+	if cfi == nil {
+		return nil
+	}
+	info := in.fi.Pkg.TypesInfo
+	sub, _ := paths.Subst(info, cfi.Decl.Body, repl).(*ast.BlockStmt)
+	if sub == nil {
+		return nil
+	}
+	constBool := func(e ast.Expr) (bool, bool) {
+		e = ast.Unparen(e)
+		neg := false
+		for {
+			u, ok := e.(*ast.UnaryExpr)
+			if !ok || u.Op != token.NOT {
+				break
+			}
+			neg = !neg
+			e = ast.Unparen(u.X)
+		}
+		if tv, ok := info.Types[e]; ok && tv.Value != nil && tv.Value.Kind() == constant.Bool {
+			return constant.BoolVal(tv.Value) != neg, true
+		}
+		return false, false
+	}
+	var lit *ast.CompositeLit
+	var pick func(list []ast.Stmt) bool // true: decided (lit set or failure)
+	pick = func(list []ast.Stmt) bool {
+		for _, st := range list {
+			switch v := st.(type) {
+			case *ast.ReturnStmt:
+				if len(v.Results) == 1 {
+					lit, _ = ast.Unparen(v.Results[0]).(*ast.CompositeLit)
+					if u, ok := ast.Unparen(v.Results[0]).(*ast.UnaryExpr); ok && u.Op == token.AND {
+						lit, _ = ast.Unparen(u.X).(*ast.CompositeLit)
+					}
+				}
+				return true
+			case *ast.IfStmt:
+				if v.Init != nil {
+					return true
+				}
+				b, known := constBool(v.Cond)
+				if !known {
+					return true
+				}
+				if b {
+					if pick(v.Body.List) {
+						return true
+					}
+				} else if v.Else != nil {
+					if blk, ok := v.Else.(*ast.BlockStmt); ok {
+						if pick(blk.List) {
+							return true
+						}
+					} else if pick([]ast.Stmt{v.Else}) {
+						return true
+					}
+				}
+			default:
+				return true
+			}
+		}
+		return false
+	}
+	pick(sub.List)
+	if lit == nil {
+		return nil
+	}
+	st, ok := info.TypeOf(lit).Underlying().(*types.Struct)
+	if !ok {
+		return nil
+	}
+	fields := map[string]ast.Expr{}
+	for i, el := range lit.Elts {
+		if kv, ok := el.(*ast.KeyValueExpr); ok {
+			if k, ok := kv.Key.(*ast.Ident); ok {
+				fields[k.Name] = kv.Value
+			}
+		} else if i < st.NumFields() {
+			fields[st.Field(i).Name()] = el
+		}
+	}
+	if len(fields) == 0 {
+		return nil
+	}
+	return fields
 }
 
 // valueBody: for a call of a followed helper whose body is `stmts...; return <expr>` (one result, no
